@@ -62,7 +62,7 @@ class GuardReport:
 
 
 class GuardAnalysis:
-    def __init__(self, eff: Effects, required: Callable[[set], bool],
+    def __init__(self, eff: Effects, required: Callable[[FuncInfo, set], bool],
                  exempt_field: Callable[[tuple], bool] = lambda p: False,
                  describe: str = "guard") -> None:
         self.eff = eff
@@ -129,7 +129,7 @@ class GuardAnalysis:
                     if not own:
                         continue
                     rep.effect_events += 1
-                    if self.required(facts):
+                    if self.required(f, facts):
                         break  # first effect on this path is guarded; later ones need no guard
                     rep.ok = False
                     w = own[0]
